@@ -310,12 +310,15 @@ def mergeGo (E : Env) : List Bytes → Headers.Coll → Headers.Coll → R (Head
           | .error e => .error e
           | .ok hs' => mergeGo E ns hs' ts'
 
+/-- the names the Trailer field of a message announces (none without the field) -/
+def announced (E : Env) (m : Msg) : R (List Bytes) :=
+  match m.headers.get? sTrailer with
+  | some v => to400 (Host.trailerNames Headers.title E.forbidden v)
+  | none => .ok []
+
 /-- `merge_trailer_into_header` -/
 def mergeTrailers (E : Env) (m : Msg) (trailers : Headers.Coll) : R Msg :=
-  let names : R (List Bytes) := match m.headers.get? sTrailer with
-    | some v => to400 (Host.trailerNames Headers.title E.forbidden v)
-    | none => .ok []
-  match names with
+  match announced E m with
   | .error e => .error e
   | .ok names =>
     match mergeGo E names m.headers trailers with
